@@ -7,6 +7,7 @@ import Driver.CLimb
 import Driver.Lower
 import Driver.Dco
 import Driver.Alias
+import Driver.Dead
 /-! Line-protocol driver: one JSON request per input line, one JSON reply per output line. -/
 open Lean
 namespace Pyrtl.Drv
@@ -34,6 +35,7 @@ def dispatch (j : Json) : Except String Json := do
   | "lower" => cmdLower j
   | "dco" => cmdDco j
   | "alias" => cmdAlias j
+  | "dead" => cmdDead j
   | _ => throw s!"unknown cmd {cmd}"
 
 partial def loop (hin hout : IO.FS.Stream) : IO Unit := do
